@@ -130,13 +130,17 @@ CountOutCode(e) ==
 Groups == {KeyTuple(rows[i]) : i \in 1..cfg.n}
 GroupIdx(kt) == LET S == {i \in 1..cfg.n : KeyTuple(rows[i]) = kt} IN
                  [j \in 1..Cardinality(S) |-> CHOOSE i \in S : Cardinality({m \in S : m < i}) = j - 1]
+\* LIMIT k (no ORDER BY): any k of the groups, each of them whole - a group that is delivered aggregates ALL rows of its tuple
+Lim == IF "limit" \in DOMAIN cfg THEN cfg.limit ELSE 0
 TumbOutCode(e) ==
   IF nout > 0 THEN <<"unexpected_delivery", {}>>
   ELSE IF Len(rows) < cfg.n THEN <<"delivery_before_batch_complete", {}>>
-  ELSE IF Len(e.rows) # Cardinality(Groups) THEN <<"group_count_mismatch", {}>>
-  ELSE LET match(kt) == {j \in 1..Len(e.rows) : KeyMatches(e.rows[j], KeyVals(rows[GroupIdx(kt)[1]]))} IN
-       IF \E kt \in Groups : Cardinality(match(kt)) # 1 THEN <<"group_missing_or_split", {}>>
-       ELSE LET res == {AggCode(e.rows[CHOOSE j \in match(kt) : TRUE], GroupIdx(kt), 1, {}) : kt \in Groups}
+  ELSE IF Len(e.rows) # (IF Lim > 0 /\ Lim < Cardinality(Groups) THEN Lim ELSE Cardinality(Groups)) THEN <<"group_count_mismatch", {}>>
+  ELSE LET match(kt) == {j \in 1..Len(e.rows) : KeyMatches(e.rows[j], KeyVals(rows[GroupIdx(kt)[1]]))}
+           shown == {kt \in Groups : match(kt) # {}} IN
+       IF \E kt \in Groups : Cardinality(match(kt)) > 1 \/ (Lim = 0 /\ Cardinality(match(kt)) # 1) THEN <<"group_missing_or_split", {}>>
+       ELSE IF \E j \in 1..Len(e.rows) : ~\E kt \in Groups : j \in match(kt) THEN <<"row_matches_no_group", {}>>
+       ELSE LET res == {AggCode(e.rows[CHOOSE j \in match(kt) : TRUE], GroupIdx(kt), 1, {}) : kt \in shown}
                 bad == {x \in res : x[1] # ""} IN
             IF bad = {} THEN <<"", UNION {x[2] : x \in res}>> ELSE <<(CHOOSE x \in bad : TRUE)[1], {}>>
 
